@@ -134,6 +134,8 @@ def step (st : Unit) (j : Json) : Except String (Unit × Json × List Fired) := 
     let o : Originator := if (← jstr j "kind") == "direct"
       then .direct { chain := fb.getD 0 [], requester := fb.getD 1 [], memo := fb.getD 2 [] }
       else .tunnel { chain := fb.getD 0 [], tunnelID := (jnat j "tunnelID").toOption.getD 0, dstChain := fb.getD 1 [], dstAddr := fb.getD 2 [] }
+    if (jstr out "originator").toOption.getD "" != toHex (o.encode H) then
+      fired := fired ++ [{ name := "originator_encoding_not_the_specified_one", detail := mkObj [("got", js ((jstr out "originator").toOption.getD "")), ("want", js (toHex (o.encode H)))] }]
     pure ((), mkObj [("originator", js (toHex (o.encode H))), ("msg", js (toHex (encodeSigning (H (o.encode H)) time sid content)))], fired)
   | "request" =>
     let kind ← jstr j "kind"
